@@ -5,6 +5,8 @@ import (
 	"strings"
 	"time"
 
+	metav1 "k8s.io/apimachinery/pkg/apis/meta/v1"
+
 	proxyv1alpha1 "github.com/kubewharf/kubegateway/pkg/apis/proxy/v1alpha1"
 
 	"kgsim/sim"
@@ -201,6 +203,17 @@ func RunC15(r *sim.Run) {
 		if !c.q.Done {
 			r.Violate("inflight_request_left_hanging", removal+"/"+c.kind, "%s: request %s (%s, in flight to a removed endpoint) was still open at the client 2 s after the removal\n%s", removal, c.q.ID, c.kind, sim.Goroutines("dispatcher", "reverseproxy"))
 			return
+		}
+		// a request whose upstream had not started to answer is terminated by the
+		// gateway itself: its client gets a well-formed failure Status (or sees the
+		// connection end), never a success the upstream did not send (C04)
+		if c.kind == "hold" && c.q.ReadErr == "" {
+			r.Checked("cut_request_answered_with_failure_status")
+			st := statusOf(c.q)
+			if c.q.Status < 500 || st == nil || int(st.Code) != c.q.Status || st.Status != metav1.StatusFailure {
+				r.Violate("cut_request_not_answered_with_failure_status", fmt.Sprintf("%s/%d", removal, c.q.Status), "%s: request %s was held at the removed endpoint, which had not answered; its client received status %d with body %q instead of a failure Status", removal, c.q.ID, c.q.Status, firstLine(string(c.q.RespBody)))
+				return
+			}
 		}
 		if c.kind == "stream" && c.q.ReadErr == "" && len(c.q.RespBody) == 5*len(piece) {
 			r.Violate("inflight_request_completed_normally", removal, "request %s streamed to the end although its endpoint was removed", c.q.ID)
